@@ -52,6 +52,9 @@ GATE_SNIPS = [
 AUX = {
     "glib.html": "{% macro gm(p) %}({{ p }}{{ gl.a }}){% endmacro %}{% set v = ggate('modbody') %}",
     "ginc.html": "<{{ tid }}{{ gate('i') }}{{ tid }}{{ nums|sum }}>",
+    "pa.html": "PA({% block b %}a-b{% endblock %}|{% block c %}a-c{% endblock %})",
+    "pb.html": "PB<{% block c %}b-c{{ gate('pb') }}{% endblock %}|{% block b %}b-b{% endblock %}>",
+    "pc.html": "{% extends 'pa.html' %}{% block b %}c-b{{ super() }}{% endblock %}",
     "glib3.html": "{% macro gm3(p) %}<b>{{ ggate('m3') }}{{ p }}</b>{% endmacro %}",
     "glib4.html": "{% macro f4(x) %}{% autoescape false %}{{ ggate('ae') }}{{ [x, '<m>'|safe]|join('-') }}{% endautoescape %}{% endmacro %}"
                   "{% macro t4(x) %}{% autoescape true %}{{ ggate('at') }}{{ [x, '<m>'|safe]|join('-') }}{% endautoescape %}{% endmacro %}",
@@ -59,7 +62,15 @@ AUX = {
 }
 
 
+DYN_PARENT = [
+    "{% extends layout %}{% block b %}c[{{ gate('p') }}{{ super() }}]{{ tid }}{% endblock %}",
+    "{% if layout %}{% extends layout %}{% endif %}{% block b %}d{{ super() }}{{ gate('q') }}{% endblock %}{% block c %}{{ tid }}{{ super() }}{% endblock %}",
+]
+
+
 def make_task_template(rng):
+    if rng.random() < 0.15:
+        return rng.choice(DYN_PARENT)
     parts = []
     for _ in range(rng.randint(1, 3)):
         parts.append(rng.choice(GATE_SNIPS) if rng.random() < 0.75 else rng.choice(FC.STATE_SNIPS[:36]))
@@ -109,7 +120,7 @@ def task_data(sched, tid):
     async def gate(label):
         return await sched.gate(label)
 
-    data.update(gate=gate, tid=tid, html="<i>" + tid)
+    data.update(gate=gate, tid=tid, html="<i>" + tid, layout=["pa.html", "pb.html", "pc.html"][int(tid[1:]) % 3])
     return data
 
 
@@ -256,7 +267,7 @@ def run(ctx):
 def culprit(src):
     if "glib4.html" in src:
         return FC.SIG_MODULE_EVALCTX
-    for key in ("glib2.html", "glib.html", "ginc.html", "namespace", "cycler", "macro", "loop.", "sum(start", "block"):
+    for key in ("extends layout", "glib2.html", "glib.html", "ginc.html", "namespace", "cycler", "macro", "loop.", "sum(start", "block"):
         if key in src:
             return key
     return "plain gate"
@@ -275,7 +286,8 @@ FIXED = [
     ["{% autoescape true %}{% import 'glib3.html' as L3 %}{{ L3.gm3(html) }}{% endautoescape %}",
      "{% autoescape false %}{% import 'glib3.html' as L3 %}{{ L3.gm3(html) }}{% endautoescape %}"],
 ]
-FIXED_AUTO = [False, False, False, True, False]
+FIXED.append([DYN_PARENT[0], DYN_PARENT[0], DYN_PARENT[1]])      # one template, three tasks, three different parents
+FIXED_AUTO = [False, False, False, True, False, False]
 
 
 def replay(ctx, data):
